@@ -28,7 +28,7 @@ class Domain:
         self.actions = {}
         self.constants = {}
         self.functions = {}
-        self.types = DEFAULT_TYPES
+        self.types = dict(DEFAULT_TYPES)
         self.predicates = {}
         self.requirements = []
 
